@@ -34,6 +34,30 @@ def check(run):
             op = run.rng.choice(["RemoveForward", "RemoveReverse", "RemoveForward", "RemoveReverse", "Add"])
             p.append(dict(op=op, n=run.rng.choice("ab"), k=run.rng.randint(1, 24), v=run.rng.randint(11, 34)))
         plans.append(p)
+    # large bimaps (hundreds of pairs: whatever a map or a Bimap does differently when big), read back in full only at chosen points:
+    # fill, clone, clear / drain through every size, refill; both copies observed
+    for N in ((129, 140, 300) if run.quick() else (64, 129, 140, 300, 600, 1100)):
+        for variant in ("clear", "drain"):
+            p = [dict(op="Reset", n="a", k=0, v=0, nk=N, nv=N)]
+            perm = list(range(N))
+            run.rng.shuffle(perm)
+            for i in range(N):
+                p.append(dict(op="Add", n="a", k=i + 1, v=11 + perm[i], q=(i % max(1, N // 3) != 0 and i != N - 1)))
+            p.append(dict(op="Clone", n="a", k=0, v=0))
+            if variant == "clear":
+                p.append(dict(op="Clear", n="a", k=0, v=0))
+                p.append(dict(op="Clone", n="a", k=0, v=0))       # a copy taken from the cleared bimap
+                p.append(dict(op="Add", n="b", k=5, v=11 + perm[7]))
+                p.append(dict(op="Add", n="a", k=3, v=13))
+                p.append(dict(op="Clear", n="b", k=0, v=0))
+            else:
+                for i in range(N):
+                    op = "RemoveForward" if i % 2 else "RemoveReverse"
+                    p.append(dict(op=op, n="a", k=i + 1, v=11 + perm[i], q=(i % max(1, N // 4) != 0 and i < N - 2)))
+                p.append(dict(op="Add", n="a", k=2, v=12))
+                p.append(dict(op="Clear", n="b", k=0, v=0))
+                p.append(dict(op="Add", n="b", k=2, v=12))
+            plans.append(p)
     segs = execute(run, plans)
     if len(segs) != len(plans):
         raise Inconclusive("driver returned %d segments for %d plans" % (len(segs), len(plans)))
@@ -42,7 +66,8 @@ def check(run):
     run.cov.update(tour=st, conformance=conf, exhaustive=st["edges_covered"] == st["edges_total"],
                    distinct_nontrivial=distinct_count(segs, lambda s: len(s) > 2),
                    rule="tour paths covering every edge of the TLC state graph of Bimap.tla (all pairs of partial bijections "
-                        "x every call on either bimap value incl. Clone) + seeded histories over 5x5; non-trivial = >= 2 calls")
+                        "x every call on either bimap value incl. Clone) + seeded histories over 5x5 and 24x24 + fill / clone / clear-or-drain / reuse "
+                        "histories with 129-300 (thorough 1100) pairs; non-trivial = >= 2 calls")
     run.cov["samples"] = [[{k: v for k, v in e.items() if k != "obs"} for e in segs[0][:8]], segs[-1][1]]
     run.assumptions += ["K = V = int; the universes contain the zero value of K and of V", "Range early stop probed with stop-after-first only"]
     return finish(run, reexec=lambda rej: execute(run, [rej["plan"]])[0])
